@@ -133,23 +133,22 @@ mod proofs {
     use super::*;
 
     fn verdict() {
-        let bad = vshim::lr_violation();
-        let e = vshim::errors();
-        assert!(!(bad && e & E_DOUBLE != 0), "C01: a value is released twice");
-        assert!(!(bad && e & E_WRONG_THREAD != 0), "C01: released by a thread that removes nothing");
-        assert!(!(bad && e & E_IN_HANDLER != 0), "C01: released inside a signal handler");
-        assert!(!(bad && e & E_UAF != 0), "C01: a reader uses a snapshot after its release");
-        assert!(!(bad && e & E_NOT_FREED != 0), "C01: store returned but the replaced snapshot was not released exactly once");
-        assert!(!(bad && e & E_OPEN_SECTION != 0), "C01: snapshot released while a read section holding it is open");
-        assert!(!(bad && e & vshim::E_WEAK_ORDERING != 0), "C01: half-lock uses an ordering weaker than SeqCst (encoder decides SC only)");
-        assert!(!bad, "C01: other error flag");
-        kani::assume(vshim::consistent());
+        crate::lr_verdict!(
+            "C01",
+            (E_DOUBLE, "a value is released twice"),
+            (E_WRONG_THREAD, "released by a thread that removes nothing"),
+            (E_IN_HANDLER, "released inside a signal handler"),
+            (E_UAF, "a reader uses a snapshot after its release"),
+            (E_NOT_FREED, "store returned but the replaced snapshot was not released exactly once"),
+            (E_OPEN_SECTION, "snapshot released while a read section holding it is open"),
+            (vshim::E_WEAK_ORDERING, "half-lock uses an ordering weaker than SeqCst (encoder decides SC only)"),
+        );
     }
 
     #[kani::proof]
     #[kani::stub(alloc::alloc::dealloc_nonnull, noop_dealloc)]
     #[kani::unwind(8)]
-    fn c01_dbg() {
+    pub fn c01_dbg() {
         let l = reg::Lock::new(Canary(0));
         vshim::set_mode_lr(2, 3, 0);
         unsafe {
@@ -167,7 +166,7 @@ mod proofs {
     #[kani::proof]
     #[kani::stub(alloc::alloc::dealloc_nonnull, noop_dealloc)]
     #[kani::unwind(8)]
-    fn c01_lr_w1x2_r2_k3() {
+    pub fn c01_lr_w1x2_r2_k3() {
         let l = reg::Lock::new(Canary(0));
         vshim::set_mode_lr(3, 4, 0);
         unsafe {
